@@ -246,6 +246,23 @@ Proof.
   - intros x a0. refs_simpl. intros [[-> ->]|Ha]; [done|by apply (H8 x)].
 Qed.
 
+Lemma refs_attrs_frame s f : RefsOK s → RefsOK (s <| attrs ::= f |>).
+Proof. by intros []. Qed.
+
+Lemma refs_assign_value s ent oa v : RefsOK s → below s oa → RefsOK (assign_value s ent oa v).1.
+Proof.
+  intros Hr Hb. unfold assign_value. destruct oa as [a|]; [|by apply refs_assign].
+  destruct (attrs s !! a); [by apply refs_assign|done].
+Qed.
+
+Lemma refs_new_attr s k : RefsOK s → RefsOK (new_attr s k).1.
+Proof.
+  intros Hr. unfold new_attr, alloc3. cbn. apply refs_attrs_frame. exact (refs_l1 s NewOther Hr).
+Qed.
+
+Lemma refs_attr_clone s a : RefsOK s → RefsOK (attr_clone s a).1.
+Proof. intros Hr. unfold attr_clone. destruct (attrs s !! a); [by apply refs_new_attr|done]. Qed.
+
 Lemma refs_remove_assign s ent key : RefsOK s → RefsOK (remove_assign s ent key).1.
 Proof.
   intros [H1 H2 H3 H4 H5 H6 H7 H8 H9]. unfold remove_assign. case_decide; [|by split]. cbn.
@@ -302,14 +319,14 @@ Lemma base_frame s o : match o with L1 _ => False | _ => True end → base (step
   base (step3 s o).1 = base s <| next ::= Pos.succ |>.
 Proof.
   destruct o; try done; intros _; cbn [step3];
-    unfold new_std_signal, new_enum_signal, std_set_type, std_set_unit, enum_set_enum, assign_attr,
+    unfold new_std_signal, new_enum_signal, std_set_type, std_set_unit, enum_set_enum, assign_value, new_attr, attr_clone, assign_attr,
       remove_assign, remove_all_assign, bus_set_builder, alloc3.
   all: repeat case_match; cbn; auto.
 Qed.
 
 Theorem inv3_step s o : Inv3 s → op_ok3 s o → Inv3 (step3 s o).1.
 Proof.
-  intros [Hinv Hrefs] Hok. destruct o as [o| | | | | | | | |].
+  intros [Hinv Hrefs] Hok. destruct o as [o| | | | | | | | | | |].
   - split; [|by apply refs_l1]. cbn [step3]. pose proof (inv_step (base s) o Hinv Hok) as Hi.
     by destruct (step (base s) o).
   - split; [|by apply refs_new_std_signal].
@@ -322,14 +339,18 @@ Proof.
     destruct (base_frame s (StdSetUnit sg ou) I) as [->| ->]; [done|]. by apply (Proofs_New.inv_new_other (base s)).
   - split; [|by apply refs_enum_set_enum].
     destruct (base_frame s (EnumSetEnum sg oe fits) I) as [->| ->]; [done|]. by apply (Proofs_New.inv_new_other (base s)).
-  - split; [|by apply refs_assign].
-    destruct (base_frame s (Assign ent oa verr) I) as [->| ->]; [done|]. by apply (Proofs_New.inv_new_other (base s)).
+  - split; [|by apply refs_assign_value].
+    destruct (base_frame s (Assign ent oa v) I) as [->| ->]; [done|]. by apply (Proofs_New.inv_new_other (base s)).
   - split; [|by apply refs_remove_assign].
     destruct (base_frame s (RemoveAssign ent key) I) as [->| ->]; [done|]. by apply (Proofs_New.inv_new_other (base s)).
   - split; [|by apply refs_remove_all_assign].
     destruct (base_frame s (RemoveAllAssign ent) I) as [->| ->]; [done|]. by apply (Proofs_New.inv_new_other (base s)).
   - split; [|by apply refs_bus_set_builder].
     destruct (base_frame s (BusSetBuilder b ocb) I) as [->| ->]; [done|]. by apply (Proofs_New.inv_new_other (base s)).
+  - split; [|by apply refs_new_attr].
+    destruct (base_frame s (NewAttr k) I) as [->| ->]; [done|]. by apply (Proofs_New.inv_new_other (base s)).
+  - split; [|by apply refs_attr_clone].
+    destruct (base_frame s (AttrClone a) I) as [->| ->]; [done|]. by apply (Proofs_New.inv_new_other (base s)).
 Qed.
 
 Theorem inv3_reachable s : Reach3 s → Inv3 s.
@@ -349,7 +370,7 @@ Qed.
 (* C06 for layer 3: a refused operation changes nothing *)
 Theorem error_is_noop3 s o : Inv3 s → is_err (step3 s o).2 = true → (step3 s o).1 = s.
 Proof.
-  intros [Hinv _]. destruct o as [o| | | | | | | | |]; cbn [step3].
+  intros [Hinv _]. destruct o as [o| | | | | | | | | | |]; cbn [step3].
   - pose proof (error_is_noop (base s) o Hinv) as Hn. destruct (step (base s) o) as [b r]. cbn in *.
     intros He. rewrite (Hn He). by destruct s.
   - unfold new_std_signal, alloc3. by repeat case_match.
@@ -357,8 +378,10 @@ Proof.
   - unfold std_set_type. by repeat case_match.
   - unfold std_set_unit. by repeat case_match.
   - unfold enum_set_enum. by repeat case_match.
-  - unfold assign_attr. by repeat case_match.
+  - unfold assign_value, assign_attr. by repeat case_match.
   - unfold remove_assign. by repeat case_match.
   - unfold remove_all_assign. done.
   - unfold bus_set_builder. by repeat case_match.
+  - unfold new_attr, alloc3. done.
+  - unfold attr_clone, new_attr, alloc3. by repeat case_match.
 Qed.
